@@ -329,6 +329,13 @@ func (i *Interp) equals(t types.Type, x, y value) *smt.Term {
 		return c.BoolC(x == nil && y.([]value) == nil)
 	case *ssa.Function, *closure, *ssa.Builtin:
 		return c.BoolC(isNilValue(x) && isNilValue(y))
+	case rtypeVal:
+		yy, ok := y.(rtypeVal)
+		return c.BoolC(ok && types.Identical(x.t, yy.t))
+	case *boundMethod:
+		return c.BoolC(false)
+	case *rvBox:
+		return c.BoolC(x == y)
 	case iface:
 		y := y.(iface)
 		if x.t == nil || y.t == nil {
